@@ -143,6 +143,10 @@ class ModeWrapper(KDDataset):
     def __len__(self):
         return len(self.dataset)
 
+    def dispose(self):
+        # KDDataset.dispose is a no-op -> forward like KDWrapper (also reached via __exit__ of "with ModeWrapper(...)")
+        self.dataset.dispose()
+
     @property
     def collators(self):
         assert self._collators is None, "register collators on root datset"
